@@ -57,8 +57,12 @@ class Ctx:
         self.discharged = 0
         self.extra = {}
 
+    def _cfg(self, cfg):
+        # "A!" = build configuration A itself even while the rules are re-run under an alternative configuration
+        return cfg[:-1] if cfg.endswith("!") else self.cfg_map.get(cfg, cfg)
+
     def F(self, cfg="A"):
-        cfg = self.cfg_map.get(cfg, cfg)
+        cfg = self._cfg(cfg)
         if cfg not in self._facts:
             self._facts[cfg] = facts.Facts(extract.ensure(cfg))
             self.cfgs_used.add(cfg)
@@ -73,11 +77,12 @@ class Ctx:
 
     def root(self, name, cfg="A", usize_bits=64, opaque=()):
         """SYM analysis of `name` as an entry point (memoised)"""
-        cfg = self.cfg_map.get(cfg, cfg)
+        req = cfg
+        cfg = self._cfg(cfg)
         key = (name, cfg, usize_bits, tuple(sorted(opaque)))
         if key not in self._roots:
-            F = self.F(cfg)
-            fn = self.fn(name, cfg)
+            F = self.F(req)
+            fn = self.fn(name, req)
             eng = sym.Engine(F, models, usize_bits=usize_bits, opaque=opaque)
             ret, st, fr = eng.run_root(fn)
             self._roots[key] = (eng, ret, st, fr)
